@@ -140,7 +140,7 @@ pub const OFFSET_GRID: [i32; 41] = [
 /// to 0000-01-01 and 9999-12-31, each at the 41 offsets of the grid; 2048 times per CRL.
 fn boundary_sweep(cfg: &RunCfg) -> Vec<TimeBatch> {
 	let span = 26 * 3600;
-	let step = if cfg.tier == Tier::Thorough { 1 } else { 617 };
+	let step = if cfg.tier == Tier::Thorough { 1 } else { 61 };
 	let mut times = Vec::new();
 	let ranges = [
 		(gen::Y1950 - span, gen::Y1950 + span),
@@ -177,8 +177,8 @@ fn boundary_sweep(cfg: &RunCfg) -> Vec<TimeBatch> {
 pub fn def() -> PropertyDef {
 	PropertyDef {
 		id: "C09",
-		rule: "OffsetDateTime = (instant, nanosecond, UTC offset) with UTC year 0..=9999, boundary-biased (+-2 days around 0000-01-01, 1950-01-01, 2050-01-01, 9999-12-31, epoch; uniform otherwise), offsets over the whole +-25:59:59 range; every value is placed in notBefore, notAfter, thisUpdate, nextUpdate and revocationDate and parsed back strictly (exact length, digits, Z, no fraction): same instant truncated to seconds, UTCTime iff UTC year in 1950..=2049, and byte-identical encoding when the same instants are given at offset 0. Boundary sweep: quick every 617th second, thorough every second within +-26 h of each boundary x 41 offsets. Non-trivial = offset != 0 or nanosecond != 0 or within a day of a boundary.",
+		rule: "OffsetDateTime = (instant, nanosecond, UTC offset) with UTC year 0..=9999, boundary-biased (+-2 days around 0000-01-01, 1950-01-01, 2050-01-01, 9999-12-31, epoch; uniform otherwise), offsets over the whole +-25:59:59 range; every value is placed in notBefore, notAfter, thisUpdate, nextUpdate and revocationDate and parsed back strictly (exact length, digits, Z, no fraction): same instant truncated to seconds, UTCTime iff UTC year in 1950..=2049, and byte-identical encoding when the same instants are given at offset 0. Boundary sweep: quick every 61st second, thorough every second within +-26 h of each boundary x 41 offsets. Non-trivial = offset != 0 or nanosecond != 0 or within a day of a boundary.",
 		assumptions: vec!["the harness's strict time parser and civil-calendar arithmetic (unit-tested)"],
-		subs: vec![prop_sub("fields", 12_000, 600_000, batch, check_batch), sweep_sub("boundary-sweep", boundary_sweep, check_batch)],
+		subs: vec![prop_sub("fields", 120_000, 600_000, batch, check_batch), sweep_sub("boundary-sweep", boundary_sweep, check_batch)],
 	}
 }
